@@ -1,0 +1,8 @@
+//go:build verif
+
+// Contracts for package slicesext (see /repo/zz_contracts_verif.go).
+package slicesext
+
+//@ func UniqueJoin
+//@   trusted
+//@   pure allocates
